@@ -8,7 +8,7 @@ use crate::rng::Rng;
 use serde_json::{json, Value};
 
 pub fn count(tier: Tier) -> u64 {
-    tier.pick(72, 1200)
+    tier.pick(240, 1200)
 }
 
 pub fn gen(seed: u64, tier: Tier, k: u64) -> Value {
